@@ -342,3 +342,45 @@ func VfC02_NamedNonStructTypes() {
 	src += "@g = global %" + u + " zeroinitializer\n"
 	hC02Check(src)
 }
+
+// VfC02_TypedUses: the printer writes the type of an operand from the type
+// recorded for the defining instruction, and the parser derives the next
+// type from that annotation; so a result type that is recorded wrongly shows
+// in a def-use chain of length two.  Results of instructions that derive
+// their type (extractvalue / insertvalue along nested index paths whose
+// indices differ by depth, getelementptr, cmpxchg, a call returning a struct)
+// are used by two further instructions each; the aggregate has fields of
+// different (symbolic) widths.
+//
+//vf:unwind 400
+//vf:shards 4
+func VfC02_TypedUses() {
+	w := vfString("w", 3)
+	for i := 0; i < 3; i++ {
+		vfAssume(vfAnd(w[i] >= '2', w[i] <= '9'))
+	}
+	vfAssume(vfAnd(w[0] != w[1], vfAnd(w[1] != w[2], w[0] != w[2])))
+	a, b, c := "i"+w[0:1], "i"+w[1:2], "i"+w[2:3]
+	agg := "{ " + a + ", { " + b + ", " + c + ", [2 x " + a + "] } }"
+	// index path and the type it reaches
+	paths := [...][2]string{{"0", a}, {"1, 0", b}, {"1, 1", c}, {"1, 2, 0", a}, {"1, 2, 1", a}}
+	p := paths[vfChoice("path", len(paths))]
+	src := "declare " + agg + " @mk()\n" +
+		"define " + p[1] + " @f(" + agg + " %agg, " + p[1] + " %x, " + c + "* %q) {\n" +
+		"\t%v = extractvalue " + agg + " %agg, " + p[0] + "\n" +
+		"\t%w1 = add " + p[1] + " %v, %x\n" +
+		"\t%w2 = mul " + p[1] + " %w1, %v\n" +
+		"\t%i = insertvalue " + agg + " %agg, " + p[1] + " %w2, " + p[0] + "\n" +
+		"\t%r = call " + agg + " @mk()\n" +
+		"\t%rv = extractvalue " + agg + " %r, " + p[0] + "\n" +
+		"\t%w3 = sub " + p[1] + " %rv, %w2\n" +
+		"\t%cx = cmpxchg " + c + "* %q, " + c + " 0, " + c + " 1 seq_cst seq_cst\n" +
+		"\t%old = extractvalue { " + c + ", i1 } %cx, 0\n" +
+		"\t%ok = extractvalue { " + c + ", i1 } %cx, 1\n" +
+		"\t%sel = select i1 %ok, " + c + " %old, " + c + " 7\n" +
+		"\tstore " + c + " %sel, " + c + "* %q\n" +
+		"\t%iv = extractvalue " + agg + " %i, " + p[0] + "\n" +
+		"\t%w4 = xor " + p[1] + " %iv, %w3\n" +
+		"\tret " + p[1] + " %w4\n}\n"
+	hC02Check(src)
+}
